@@ -19,7 +19,7 @@ GENS = [
     ("valid", 110, 700, ["--max-states", "1200"], ["--max-states", "4000"]),
     ("hostile", 3000, 100000, [], []),
     ("v1", 2000, 30000, [], []),
-    ("bomb", 8, 16, [], ["--big", "1"]),
+    ("bomb", 11, 22, [], ["--big", "1"]),
     # machines at the documented size limit: encodings of exactly MAX, MAX-1, MAX-2, MAX-4096
     # bytes (must round-trip), MAX+1 (serialize panics; model predicts it), largest whole multiple
     ("limit", 7, 14, [], []),
